@@ -335,7 +335,7 @@ class LineReader(object):
     def __init__(self, fd):
         self.fd, self.buf, self.eof = fd, b"", False
 
-    def readline(self, timeout=30):
+    def readline(self, timeout=120):
         while b"\n" not in self.buf and not self.eof:
             r, _, _ = select.select([self.fd], [], [], timeout)
             if not r:
@@ -691,7 +691,9 @@ def oracle_single(c, im):
             renamed = True
         which = (t or {}).get("which", []) if t is not None else ["absent"]
         is_old = (t is None and old is None) or (t is not None and old is not None and "old" in which and t["ino"] == old["ino"] and t["mode"] == old["mode"])
-        is_new = t is not None and "new" in which and not (old is not None and t["ino"] == old["ino"])
+        # (inode numbers are recycled, so "new" is decided by the bytes alone; the inode only tells the
+        #  untouched original apart when old and new bytes coincide)
+        is_new = t is not None and "new" in which
         if not (is_old or is_new):
             bad.append(("crash_atomic" if c["inject"]["kind"] != "fault" else "fault_atomic",
                         "after %r the target is neither the untouched original nor the complete new text: %r" % (ev, t)))
@@ -739,7 +741,7 @@ def oracle_two(c, im):
             committed = True
         which = t.get("which", []) if t is not None else []
         is_old = (t is None and old is None) or (t is not None and old is not None and "old" in which and t["ino"] == old["ino"])
-        is_new = t is not None and ("d1" in which or "d2" in which) and not (old is not None and t["ino"] == old["ino"])
+        is_new = t is not None and ("d1" in which or "d2" in which)       # inode numbers are recycled
         if not (is_old or is_new):
             bad.append(("two_writers", "after %r by %s the target is none of old, d1, d2: %r" % (ev, side, t)))
         if committed and not is_new:
@@ -1083,7 +1085,7 @@ def run(ctx):
             cases.append(gen_two(cm.rng(ctx.seed, "c08", "sched", i), 100000 + i, sched=s, small=(i % 16 != 0)))
         ctx.notes["exhaustive_schedules"] = min(budget, 3432)
     proc = [c for c in cases if c["kind"] in ("single", "two")]
-    impl = cm.run_impl("c08", "impl_case", proc, timeout_case=60)
+    impl = cm.run_impl("c08", "impl_case", proc, timeout_case=300)
     nexpr = evaluate(ctx, proc, impl)
     # strace sample (runs from the harness process: the tool itself is an unpatched subprocess)
     scases = [c for c in cases if c["kind"] == "strace"] + [strace_case(cm.rng(ctx.seed, "c08", "strace", i), i) for i in range(n_strace)]
